@@ -86,6 +86,30 @@ class Pool:
             s.block(lambda: all(x.state == "done" for x in victims), timeout if timeout is not None else 1.0, True, False)
 
 
+class Event:
+    """gevent.event.Event: set() / wait(timeout) -> bool"""
+
+    def __init__(self):
+        self._flag = False
+
+    def set(self):
+        self._flag = True
+        facade.sim().tick()
+
+    def is_set(self):
+        return self._flag
+
+    def clear(self):
+        self._flag = False
+
+    def wait(self, timeout=None):
+        s, t, p = facade.ctx()
+        if not self._flag:
+            s.block(lambda: self._flag, timeout, True, False)
+        s.tick()
+        return self._flag
+
+
 class StreamServer:
     def __init__(self, listener, handle=None, spawn=None, **kw):
         self.socket = listener
@@ -126,6 +150,10 @@ class StreamServer:
                     break
                 n += 1
                 self.pool.spawn(self._handle, client, addr)
+
+    def stop_accepting(self):
+        """BaseServer.stop_accepting(): the accept watcher is stopped, the listening socket stays open"""
+        self.closed = True
 
     def close(self):
         self.closed = True
@@ -188,6 +216,7 @@ def install(seams_mod):
     gg.gevent = FakeGevent()
     gg.Pool = Pool
     gg.StreamServer = StreamServer
+    gg.Event = Event
     gg.hub = FakeHub()
     gg.monkey = FakeMonkey()
     gg.socket = FakeGSocketModule()
